@@ -599,3 +599,29 @@ Proof.
   - intros g Hg Hin. apply (wf_fresh P WF g Hg). apply (wf_atoms P WF). exact Hin.
   - subst D. apply Inv_dag_ok; auto.
 Qed.
+
+(* ... and with the evaluator's mechanics: one checked circuit for the unconditioned CNF, evidence and
+   query imposed by zeroed weights *)
+Theorem evaluator_correct : forall tc use_memo P q e M C D kq kes,
+    wf_src P -> stratified (wp_graph P) -> (forall a, is_model (wp_graph P) a (M a)) ->
+    break_cycles_m tc use_memo (wp_graph P) (ai_of P) [q] e = Some (D, [kq], kes) ->
+    PL.C10.ModelCircuit.check_ddnnf (length D) C (clark_cnf P D) = true ->
+    forallb (lit_key (length D)) (kq :: kes) = true ->
+    evaluator tc use_memo P q e C = Some (world_prob P M q e).
+Proof.
+  intros tc um P q e M C D kq kes WF ST HM BC CK LK.
+  rewrite (evaluator_is_pipeline tc um P q e C D kq kes BC CK LK).
+  eapply pipeline_correct; eauto.
+Qed.
+
+(* all queries at once *)
+Theorem pipeline_all_correct : forall tc use_memo P qs e M D kqs kes,
+    wf_src P -> stratified (wp_graph P) -> (forall a, is_model (wp_graph P) a (M a)) ->
+    break_cycles_m tc use_memo (wp_graph P) (ai_of P) qs e = Some (D, kqs, kes) ->
+    pipeline_all tc use_memo P qs e = Some (map (fun q => world_prob P M q e) qs).
+Proof.
+  intros tc um P qs e M D kqs kes WF ST HM BC.
+  eapply pipeline_all_correct_ok; eauto.
+  - intros g Hg Hin. apply (wf_fresh P WF g Hg). apply (wf_atoms P WF). exact Hin.
+  - eapply break_cycles_shape; eauto.
+Qed.
